@@ -3,5 +3,5 @@
 set -e
 cd "$(dirname "$0")"
 coqc -Q ../coq/theories FV -Q ../coq/gen FVGen Extract.v >/dev/null
-ocamlfind ocamlopt -w -a -O3 -o runner model.mli model.ml driver.ml cmds.ml main.ml 2>/dev/null \
-  || ocamlfind ocamlopt -w -a -o runner model.mli model.ml driver.ml cmds.ml main.ml
+ocamlfind ocamlopt -w -a -O3 -o runner libm_stubs.c model.mli model.ml driver.ml cmds.ml main.ml -cclib -lm 2>/dev/null \
+  || ocamlfind ocamlopt -w -a -o runner libm_stubs.c model.mli model.ml driver.ml cmds.ml main.ml -cclib -lm
